@@ -64,6 +64,17 @@ def artefacts(wf, inputs=None):
         if c.get_workflow_status() in st.COMPLETED_STATUSES:
             c.render_workflow_output()
         steps.append(["final", c.serialize()])
+        # rerun every failed execution with explicit requests (order of the request list is fixed)
+        if c.get_workflow_status() == st.FAILED:
+            from orquesta import requests as orq_requests
+
+            failed = sorted({(r["id"], r["route"]) for r in c.workflow_state.sequence
+                             if r.get("status") == st.FAILED and r["id"] not in ("fail", "noop", "continue")})
+            if failed:
+                c.request_workflow_rerun(task_requests=[orq_requests.TaskRerunRequest.new(t, route=r)
+                                                        for t, r in failed])
+                steps.append(["rerun", c.serialize()["state"]])
+                steps.append(["offers-after-rerun", [[t["id"], t["route"]] for t in c.get_next_tasks()]])
     except Exception as e:
         steps.append(["exception", "%s: %s" % (type(e).__name__, e)])
     out["conduct"] = steps
